@@ -152,6 +152,12 @@ void vf_violation (const char *key, const char *fmt, ...)
 }
 int vf_violations_so_far (void) { return n_viol; }
 
+/* per-case digest, compared across runs (implementation chains) by the driver */
+void vf_digest_line (long idx, uint64_t digest, const char *label)
+{
+    if (out) fprintf (out, "D\t%ld\t%016llx\t%s\t%s\n", idx, (unsigned long long)digest, label, case_desc);
+}
+
 void vf_fatal (const char *fmt, ...)
 {
     va_list ap; va_start (ap, fmt);
@@ -163,7 +169,7 @@ void vf_fatal (const char *fmt, ...)
 /* hook entry point used by the PIXMAN_VERIF hooks in the library (logical-step verdicts) */
 void _pixman_verif_fail (const char *what)
 {
-    char b[256]; int n = snprintf (b, sizeof b, "K\thook\t%s\t%ld\n", what, vf.case_idx);
+    char b[256]; int n = snprintf (b, sizeof b, "\nK\thook\t%s\t%ld\n", what, vf.case_idx);
     if (out) fflush (out);
     if (write (out_fd, b, n) < 0) {}
     _exit (73);
@@ -183,7 +189,7 @@ static void on_signal (int sig, siginfo_t *si, void *uc)
 {
     void *bt[48]; char b[1600]; int n, k;
     k = backtrace (bt, 48);
-    n = snprintf (b, sizeof b, "K\t%s\t%d\t%ld\t%p\t", sig == SIGVTALRM ? "hang" : "signal", sig, vf.case_idx,
+    n = snprintf (b, sizeof b, "\nK\t%s\t%d\t%ld\t%p\t", sig == SIGVTALRM ? "hang" : "signal", sig, vf.case_idx,
                   sig == SIGVTALRM ? NULL : si->si_addr);
     for (int i = 0; i < k && n < 1500; i++) n += snprintf (b + n, sizeof b - n, "%p,", bt[i]);
     b[n++] = '\n';
